@@ -201,6 +201,10 @@ class FilterSuite(Suite):
             if not paths or len(paths) != len(tree):
                 continue
             op = {"op": "filter", "src": {"kind": "mem", "tree": tree}}
+            if rng.random() < 0.02:
+                op["include"] = [hx(x) for x in rng.choice([[b""], [b" ", b"\t"]])]     # blank entries only: a filter that selects nothing
+                ops.append(op)
+                continue
             deep3 = [q for q in paths if q.count(b"/") >= 2]
             if deep3 and rng.random() < 0.08:
                 # a matched directory D below an ancestor A that the patterns leave pending, and a map function that drops D itself
